@@ -148,7 +148,9 @@ def write_if_changed(path, data: bytes):
 
 
 def main():
-    repo, dest = os.path.abspath(sys.argv[1]), os.path.abspath(sys.argv[2])
+    args = [a for a in sys.argv[1:] if a != "--plain"]
+    plain = "--plain" in sys.argv[1:]
+    repo, dest = os.path.abspath(args[0]), os.path.abspath(args[1])
     keep = set()
     changed = rewritten = 0
     for root, dirs, files in os.walk(repo):
@@ -162,7 +164,7 @@ def main():
                 continue
             with open(src, "rb") as f:
                 data = f.read()
-            if rel.startswith("src" + os.sep) and rel.endswith(".rs") and rel != os.path.join("src", "verif.rs"):
+            if not plain and rel.startswith("src" + os.sep) and rel.endswith(".rs") and rel != os.path.join("src", "verif.rs"):
                 try:
                     text = data.decode("utf-8")
                     new = rewrite_source(text)
@@ -182,7 +184,7 @@ def main():
             rel = os.path.normpath(os.path.join(rel_root, name))
             if rel not in keep and rel != "Cargo.lock":
                 os.remove(os.path.join(root, name))
-    print(f"instrument: {rewritten} source files use shimmed sync primitives; {changed} files updated in {dest}")
+    print(f"instrument{' (plain copy)' if plain else ''}: {rewritten} source files use shimmed sync primitives; {changed} files updated in {dest}")
 
 
 if __name__ == "__main__":
